@@ -10,7 +10,8 @@ Not decided: conditioning, convergence, independence of the initial guess.
 import ast
 
 from sa import AnalysisError
-from sa.astutil import method_name, dotted, src, stmt_text, params, target_names, walk_no_nested, find_stmts, calls_in
+from sa.pattern import pmatch, pfind
+from sa.astutil import method_name, dotted, src, stmt_text, params, target_names, walk_no_nested, find_stmts, calls_in, deep_resolved, resolved
 from sa.facts import abs_eval
 from sa.paths import PathEnumerator, Event
 from sa.guards import decompose
@@ -312,12 +313,16 @@ def check_solve_frontdoor(model, rep):
 
 def check_constraint_writes(model, rep):
     f = model.func('matrix._base:Matrix.solve')
-    # free-column mask J
-    Jdefs = [s for s in find_stmts(f.body, lambda s: isinstance(s, ast.Assign)) if any(src(t) == 'J' for t in s.targets)]
+    # the roles of the locals are taken from the reduced system submatrix(I, J): J = mask of free columns, I = mask of rows kept (whatever they are called)
+    subs0 = [c for c in calls_in(f.node) if method_name(c) == 'submatrix' and len(c.args) == 2 and all(isinstance(a, ast.Name) for a in c.args)]
+    if len(subs0) != 1:
+        raise AnalysisError('Matrix.solve: the reduced system submatrix(I, J) was not found')
+    In, Jn = subs0[0].args[0].id, subs0[0].args[1].id
+    Jdefs = [s for s in find_stmts(f.body, lambda s: isinstance(s, ast.Assign)) if any(src(t) == Jn for t in s.targets)]
     allowed_J = {'numpy.ones(ncols, dtype=bool)', '~constrain', 'numpy.isnan(constrain)'}
     for s in Jdefs:
         ok = src(s.value) in allowed_J
-        rep.ob('R14.4', f.key, f.where(s), ok, 'J is the mask of free columns' if ok else f'`{stmt_text(s)}`: J is no longer the free-column mask', statement=stmt_text(s))
+        rep.ob('R14.4', f.key, f.where(s), ok, 'J is the mask of free columns' if ok else f'`{stmt_text(s)}`: J is no longer the free-column mask', statement='J = ' + src(s.value))
     if len(Jdefs) < 3:
         raise AnalysisError('Matrix.solve: expected three definitions of the free-column mask J')
     stores = []
@@ -331,34 +336,44 @@ def check_constraint_writes(model, rep):
     for s, t in stores:
         idx = src(t.slice)
         if isinstance(s, ast.Assign):
-            ok = idx == '~J' and src(s.value) == 'constrain[~J]'
+            ok = idx == f'~{Jn}' and src(s.value) == f'constrain[~{Jn}]'
             det = 'constrained entries are set to the prescribed values' if ok else f'`{stmt_text(s)}` overwrites entries other than lhs[~J] = constrain[~J]'
         else:
-            ok = idx == 'J' and isinstance(s.op, ast.Add)
+            ok = idx == Jn and isinstance(s.op, ast.Add)
             det = 'the update touches free entries only' if ok else f'`{stmt_text(s)}` updates entries outside the free set J'
         rep.ob('R14.4', f.key, f.where(s), ok, det, statement=stmt_text(s))
     # the reduced system: submatrix(I, J) with rhs - self @ lhs restricted to I
     subs = [c for c in calls_in(f.node) if method_name(c) == 'submatrix']
-    ok = len(subs) == 1 and [src(a) for a in subs[0].args] == ['I', 'J']
+    ok = len(subs) == 1 and [src(a) for a in subs[0].args] == [In, Jn]
     rep.ob('R14.4', f.key, f.where(subs[0]) if subs else f.where(), ok, 'reduced system is submatrix(I, J)' if ok else 'reduced system is not submatrix(I, J)', statement='submatrix(I, J)')
     sol = [c for c in calls_in(f.node) if method_name(c) == '_solver' and c.args and 'lhs' in src(c.args[0])]
-    ok = len(sol) == 1 and src(sol[0].args[0]).replace(' ', '') == '(rhs-self@lhs)[I]'
+    ok = len(sol) == 1 and src(sol[0].args[0]).replace(' ', '') == f'(rhs-self@lhs)[{In}]'
     rep.ob('R14.4', f.key, f.where(sol[0]) if sol else f.where(), ok, 'reduced right-hand side is (rhs - A lhs)[I]' if ok else
            'the reduced right-hand side is not (rhs - self @ lhs)[I]: prescribed values would not be lifted', statement='reduced-rhs')
 
     g = model.func('solver:System.solve_constraints')
+    # roles, not names: M_ is the mask handed to the linear solve as `constrain=`; D_, C_ are values and column indices of the csr export
+    solv = [c for c in calls_in(g.node) if (dotted(c.func) or '').endswith('jac.solve')]
+    mk = [k.value.id for c in solv for k in c.keywords if k.arg == 'constrain' and isinstance(k.value, ast.Name)]
+    ok = len(solv) == 1 and len(mk) == 1
+    rep.ob('R14.4', g.key, g.where(solv[0]) if solv else g.where(), ok, 'the linear solve is constrained by the mask of dropped dofs' if ok else 'jac.solve is not constrained by mycons', statement='constrain=mycons')
+    M = mk[0] if mk else '?'
     nanw = [s for s in find_stmts(g.body, lambda s: isinstance(s, ast.Assign)) if isinstance(s.targets[0], ast.Subscript) and src(s.value) in ('numpy.nan', 'float("nan")', "float('nan')")]
-    ok = len(nanw) == 1 and src(nanw[0].targets[0]) == 'x[mycons]'
+    ok = len(nanw) == 1 and pmatch(f'X_[{M}]', nanw[0].targets[0]) is not None
     rep.ob('R14.4', g.key, g.where(nanw[0]) if nanw else g.where(), ok, 'exactly the dropped dofs (mycons) are returned as NaN' if ok else
            'solve_constraints does not write NaN exactly at mycons', statement='nan-at-mycons')
-    # mycons is computed from |data| > droptol over the csr column indices and passed as constrain
-    drop = [s for s in find_stmts(g.body, lambda s: isinstance(s, ast.Assign)) if isinstance(s.targets[0], ast.Subscript) and src(s.targets[0].value) == 'mycons']
-    ok = len(drop) == 1 and src(drop[0].value) == 'False' and 'abs(data) > droptol' in src(drop[0].targets[0].slice) and src(drop[0].targets[0].slice).startswith('colidx[')
+    exp = pfind("D_, C_, R_ = jac.export('csr')", g.node)
+    drop = [s for s in find_stmts(g.body, lambda s: isinstance(s, ast.Assign)) if isinstance(s.targets[0], ast.Subscript) and src(s.targets[0].value) == M]
+    ok = len(drop) == 1 and len(exp) == 1 and src(drop[0].value) == 'False'
+    if ok:
+        b = exp[0][1]
+        sel = resolved(g.node, drop[0].targets[0].slice)    # one level: the selection may have been given a name
+        bb = {'C_': b['C_'], 'D_': b['D_']}
+        ok = pmatch('C_[abs(D_) > droptol]', sel, bb) is not None or pmatch('C_[numpy.abs(D_) > droptol]', sel, bb) is not None
+    init = [s for s in find_stmts(g.body, lambda s: isinstance(s, ast.Assign)) if src(s.targets[0]) == M]
+    ok = ok and len(init) == 1 and pmatch('numpy.ones(res.shape, dtype=bool)', init[0].value) is not None
     rep.ob('R14.4', g.key, g.where(drop[0]) if drop else g.where(), ok, 'columns with an entry above droptol are unconstrained' if ok else
            'the drop-tolerance selection `mycons[colidx[abs(data) > droptol]] = False` changed', statement='droptol-select')
-    solv = [c for c in calls_in(g.node) if (dotted(c.func) or '').endswith('jac.solve')]
-    ok = len(solv) == 1 and any(k.arg == 'constrain' and src(k.value) == 'mycons' for k in solv[0].keywords)
-    rep.ob('R14.4', g.key, g.where(solv[0]) if solv else g.where(), ok, 'the linear solve is constrained by mycons' if ok else 'jac.solve is not constrained by mycons', statement='constrain=mycons')
 
 
 def check_who_may_call(model, rep):
